@@ -409,6 +409,11 @@ def task_sections(pr, repo):
     pr.explore(ex, thunk, 'sections')
 
 
+def average_task(pr, repo, n):
+    from . import C08
+    C08.task_average(pr, repo, n)
+
+
 WRITERS = {
     'pka_value': {'propka.group.Group.__init__', 'propka.group.Group.__iadd__', 'propka.group.Group.__truediv__',
                   'propka.group.Group.calculate_total_pka', 'propka.group.TitratableLigandGroup.__init__'},
@@ -423,7 +428,7 @@ WRITERS = {
 
 def run(pr, repo):
     pr.parallel([(task_total, ()), (task_sequencing, ()), (task_swap, ()), (task_swap_once, ()), (task_average, ()),
-                 (task_render, ()), (task_sections, ())])
+                 (task_render, ()), (task_sections, ()), (average_task, (2,))])
     for f, allowed in WRITERS.items():
         frames.clause(pr, repo, 'writers of .%s are the declared ones' % f, f, 'writers', allowed)
     pr.assumptions += ['A-REAL: float sums re-associate; the numeric text of the .pka rows (2 decimals) is checked by the '
